@@ -357,6 +357,10 @@ alg_wrap_wrp(const jose_hook_alg_t *alg, jose_cfg_t *cfg, json_t *jwe,
     if (!hdr)
         return false;
 
+    /* The ephemeral key we generate would be shadowed. */
+    if (shared_hdr_has(jwe, "epk"))
+        return false;
+
     h = json_object_get(rcp, "header");
     if (!h && json_object_set_new(rcp, "header", h = json_object()) == -1)
         return false;
